@@ -236,7 +236,7 @@ func (x *Exec) globalVar(o *types.Var, st *State, at ast.Node) Value {
 	if errorLike(o.Type()) {
 		return Sc{x.errSentinel(key)}
 	}
-	if v, ok := x.eng.constTable(x, o); ok {
+	if v, ok := x.eng.constTable(x, o, st); ok {
 		return v
 	}
 	// heap-like global: one cell
